@@ -1834,8 +1834,10 @@ func (c *cachedDnsForwarder) beginUse() bool {
 	if c == nil || c.retired.Load() {
 		return false
 	}
+	verifYield("dns-beginuse-1")
 	c.inFlight.Add(1)
 	c.touch(time.Now())
+	verifYield("dns-beginuse-2")
 	if !c.retired.Load() {
 		return true
 	}
@@ -1873,6 +1875,7 @@ func (c *cachedDnsForwarder) retire() error {
 		return nil
 	}
 	c.retired.Store(true)
+	verifYield("dns-retire-1")
 	if c.inFlight.Load() == 0 {
 		return c.closeNow()
 	}
@@ -1928,6 +1931,7 @@ func (c *DnsController) evictIdleDnsForwarders(now time.Time) {
 		if lastUsedNano == 0 || nowNano-lastUsedNano <= idleNano {
 			return true
 		}
+		verifYield("dns-evict-1")
 
 		if c.dnsForwarderCache.CompareAndDelete(k, entry) {
 			toRetire = append(toRetire, entry)
@@ -2141,6 +2145,7 @@ func (c *DnsController) forwardWithDialArg(ctx context.Context, upstream *dns.Up
 		}
 
 		respMsg, err := entry.forwarder.ForwardDNS(ctx, data)
+		verifYield("dns-forward-1")
 		entry.endUse()
 		if err == nil && !dnsResponseMatchesRequest(data, respMsg) {
 			// Whatever the transport, a reply to a different question (stale,
